@@ -6,8 +6,7 @@ HARNESS = "c05"
 DRIVER = "c05"
 PROPS_MODULE = "OxyModel.Props.C18"
 AUDIT = "OxyModel/Audit/C18.lean"
-THEOREMS = ["C18.C18_env_values", "C18.C18_window", "C18.C18_eval_standard", "C18.C18_eval_standard_general", "C18.C18_trips_iff",
-            "C18.C18_trip_clears_metrics", "C18.C18_effects_once"]
+THEOREMS = ["C18.C18_env_values", "C18.C18_window", "C18.C18_window_fused", "C18.C18_eval_standard", "C18.C18_eval_standard_general", "C18.C18_trips_iff", "C18.C18_trips_iff_fused", "C18.C18_trip_clears_metrics", "C18.C18_effects_once"]
 RACE = True
 JOBS = 8
 RULE = ("scenario = a condition generated from the grammar (&&/|| nesting to depth 3, six comparisons, NetworkErrorRatio / ResponseCodeRatio / "
@@ -29,7 +28,8 @@ ASSUMPTIONS = ["LatencyAtQuantileMS is an oracle for the model: the value is rea
                "side effects: the model counts launches of SideEffect.Exec, one per transition; the outcome of Exec (nil or error, only logged by the "
                "code) is not modelled and must not change the count: the harness registers succeeding and failing (act, then return an error) effects, "
                "OnTripped and OnStandby independently, with a Logger that formats every message",
-               "float64 rounding of ratios is not modelled (see RULE); time stamps never decrease; atomic steps (C09)"]
+               "the model's atomic steps are arrive (activateFallback under CircuitBreaker.m), record (metrics.Record, under RTMetrics' own locks, NOT under c.m) and check (checkAndSet under c.m); the theorems hold for every interleaving of these steps (C09 lock facts: each is atomic). The correspondence run realises: whole completions (record;check back to back), arrivals parked inside the lock, and through `finish2` the schedule Record_1 Record_2 <decision> checkAndSet checkAndSet (both responses recorded before either check); other finer schedules (e.g. the clock advancing between a request's Record and its checkAndSet) are not exercised and rest on the theorems plus the C09 lock discipline",
+               "float64 rounding of ratios is not modelled (see RULE); time stamps never decrease"]
 TRUSTED = ["go/parser + vulcand/predicate are inside the tie (the Go side parses the Go-syntax text), the Python printer of the two forms is trusted",
            "side effects are counted once no goroutine launched by the breaker is left (runtime.NumGoroutine quiescence)"]
 MANIFEST = {
